@@ -474,7 +474,11 @@ func (c *daneDelivery) PrepareConn(ctx context.Context, mx string) {
 		return
 	}
 
-	c.tlsaFut = future.New()
+	// Note that lookup goroutine must use this particular Future object and
+	// not c.tlsaFut: if the MX is skipped before the lookup completes,
+	// c.tlsaFut is already replaced with the one for the next MX.
+	fut := future.New()
+	c.tlsaFut = fut
 
 	go func() {
 		defer func() {
@@ -484,7 +488,7 @@ func (c *daneDelivery) PrepareConn(ctx context.Context, mx string) {
 			}
 		}()
 
-		c.tlsaFut.Set(c.discoverTLSA(ctx, dns.FQDN(mx)))
+		fut.Set(c.discoverTLSA(ctx, dns.FQDN(mx)))
 	}()
 }
 
